@@ -139,7 +139,8 @@ Definition observed_of (o : term) : option observed :=
     Some {| o_types := map vt_of (gl (gn d 0));
             o_nsamples := List.length (gl (gn d 4));
             o_reports := map report_of_term (gl (gn o 2));
-            o_reports2 := map report_of_term (gl (gn o 3)) |}
+            o_reports2 := map report_of_term (gl (gn o 3));
+            o_frames := flat_map (fun sm => map (fun fr => (gz (gn fr 0), gss (gn fr 1), gss (gn fr 2))) (gl (gn sm 0))) (gl (gn d 4)) |}
   else None.
 
 Definition spec_C07 (i o : term) : bool :=
